@@ -6,6 +6,8 @@
 #include <qb/qbarray.h>
 #include "verif_hook.h"
 #include "vtrace.h"
+#include <pthread.h>
+#include <semaphore.h>
 
 static qb_array_t *arr;
 static size_t esize;
@@ -15,13 +17,105 @@ static int idx_of[MAXP];
 static int nptrs;
 static int in_call;
 
+/* ---- optional two-thread mode: "T<n> <op...>" lines build per-thread programs, "S 1 2 .." is the schedule, "Go" runs them.
+ * Threads yield to the controller after every release of the grow lock (QB_VP_ARRAY_UNLOCKED) and between calls, so the
+ * interleaving is controlled at the granularity of critical sections. ---- */
+#define MAXTOPS 64
+static struct vt_line tprog[3][MAXTOPS];
+static int ntprog[3];
+static char tsched[4096]; static int ntsched, tspos;
+static unsigned long trng = 1;
+static sem_t tgo[3], tback;
+static int tfin[3];
+static __thread int tme;
+static void tyield(void) { sem_post(&tback); sem_wait(&tgo[tme]); }
+
+static int in_op;
 static void hook(int point, const void *obj, long a, long b)
 {
-	if (obj != arr && arr != NULL) return;
-	if (point < QB_VP_ARRAY_LOCKED || point > QB_VP_ARRAY_TABLE_WRITE) return;
-	/* events inside an API call are written directly (the call's own event follows them) */
+	int ev;
+	/* lock events come from qb_thread_lock/unlock themselves (any call site, hooked or not); table accesses from array.c */
+	if (point == QB_VP_THREAD_LOCKED) ev = 100;
+	else if (point == QB_VP_THREAD_UNLOCKED) ev = 101;
+	else if ((point == QB_VP_ARRAY_TABLE_READ || point == QB_VP_ARRAY_TABLE_WRITE) && (obj == arr || arr == NULL)) ev = point;
+	else return;
+	if (!in_op && !tme) return;
 	FILE *o = vt_out;
-	fprintf(o, "{\"e\":\"H\",\"a\":[1,%d],\"r\":[]}\n", point);
+	fprintf(o, "{\"e\":\"H\",\"a\":[%d,%d],\"r\":[]}\n", tme ? tme : 1, ev);
+	if (tme && point == QB_VP_THREAD_UNLOCKED) tyield();      /* scheduling point: outside every critical section */
+}
+
+static void do_op(struct vt_line *Lp, int t0);
+static void *tmain(void *arg)
+{
+	tme = (int)(intptr_t)arg;
+	sem_wait(&tgo[tme]);
+	for (int i = 0; i < ntprog[tme]; i++) {
+		do_op(&tprog[tme][i], 1);
+		if (i + 1 < ntprog[tme]) tyield();
+	}
+	tfin[tme] = 1;
+	sem_post(&tback);
+	return NULL;
+}
+static void trun(void)
+{
+	pthread_t th[3];
+	sem_init(&tback, 0, 0);
+	for (int t = 1; t <= 2; t++) { tfin[t] = ntprog[t] == 0; sem_init(&tgo[t], 0, 0); if (!tfin[t]) pthread_create(&th[t], NULL, tmain, (void *)(intptr_t)t); }
+	while (!tfin[1] || !tfin[2]) {
+		int t;
+		if (tspos < ntsched) t = tsched[tspos++] == '1' ? 1 : 2;
+		else { trng = trng * 6364136223846793005UL + 1442695040888963407UL; t = ((trng >> 33) & 1) ? 1 : 2; }
+		if (tfin[t]) t = 3 - t;
+		struct timespec ts; clock_gettime(CLOCK_REALTIME, &ts); ts.tv_sec += 20;
+		sem_post(&tgo[t]);
+		if (sem_timedwait(&tback, &ts) != 0) { fprintf(vt_out, "{\"e\":\"Stuck\",\"a\":[%d],\"r\":[]}\n", t); fflush(vt_out); _exit(4); }
+	}
+	for (int t = 1; t <= 2; t++) if (ntprog[t]) pthread_join(th[t], NULL);
+	ntprog[1] = ntprog[2] = 0; ntsched = tspos = 0;
+}
+
+static void do_op(struct vt_line *Lp, int t0)
+{
+	struct vt_line *LL = Lp;
+#define L (*LL)
+	const char *op = L.tok[t0];
+	if (!arr) return;
+	in_op = 1;
+	if (!strcmp(op, "Index")) {
+		long idx = atoll(L.tok[t0 + 1]);
+		void *e = NULL;
+		int rc = qb_array_index(arr, (int32_t)idx, &e);
+		long pid = 0, dist = 0, val = 0;
+		if (rc == 0 && e) {
+			int k;
+			for (k = 0; k < nptrs; k++) if (ptrs[k] == (char *)e) break;
+			if (k == nptrs && nptrs < MAXP) { ptrs[nptrs] = e; idx_of[nptrs] = idx; nptrs++; }
+			pid = k + 1;
+			for (int j = 0; j < nptrs; j++) {
+				if (j == k) continue;
+				long d = labs((long)(ptrs[j] - (char *)e));
+				if (dist == 0 || d < dist) dist = d;
+			}
+			unsigned char *b = e; val = b[0];
+			for (size_t i = 1; i < esize; i++) if (b[i] != b[0]) val = -1;
+		}
+		vt_ev(op); vt_i(idx); vt_res(); vt_i(rc); vt_i(pid); vt_i(dist); vt_i(val); vt_end();
+	} else if (!strcmp(op, "Write")) {
+		long idx = atoll(L.tok[t0 + 1]), v = atoll(L.tok[t0 + 2]);
+		int k;
+		for (k = 0; k < nptrs; k++) if (idx_of[k] == idx) break;
+		if (k == nptrs) { in_op = 0; return; }
+		memset(ptrs[k], (int)v, esize);
+		vt_ev(op); vt_i(idx); vt_i(v); vt_res(); vt_end();
+	} else if (!strcmp(op, "Grow")) {
+		long n = atoll(L.tok[t0 + 1]);
+		int rc = qb_array_grow(arr, (size_t)n);
+		vt_ev(op); vt_i(n); vt_res(); vt_i(rc); vt_end();
+	} else { fprintf(stderr, "h_array: unknown op %s\n", op); exit(2); }
+	in_op = 0;
+#undef L
 }
 
 int main(int argc, char **argv)
@@ -36,7 +130,7 @@ int main(int argc, char **argv)
 		const char *op = L.tok[0];
 		if (!strcmp(op, "Reset")) {
 			if (arr) { qb_verif_hook_fn = NULL; qb_array_free(arr); qb_verif_hook_fn = hook; arr = NULL; }
-			nptrs = 0;
+			nptrs = 0; ntprog[1] = ntprog[2] = 0; ntsched = tspos = 0;
 			vt_simple("Reset");
 		} else if (!strcmp(op, "Create")) {
 			long mx = vt_argi(&L, 1); esize = vt_argi(&L, 2); long ag = vt_argi(&L, 3);
@@ -46,39 +140,22 @@ int main(int argc, char **argv)
 			nptrs = 0;
 			vt_ev(op); vt_i(mx); vt_i(esize); vt_i(ag); vt_res(); vt_i(arr ? 0 : -1); vt_end();
 			if (!arr) return 3;
-		} else if (!arr) {
-			continue;
-		} else if (!strcmp(op, "Index")) {
-			long idx = vt_argi(&L, 1);
-			void *e = NULL;
-			int rc = qb_array_index(arr, (int32_t)idx, &e);
-			long pid = 0, dist = 0, val = 0;
-			if (rc == 0 && e) {
-				int k;
-				for (k = 0; k < nptrs; k++) if (ptrs[k] == (char *)e) break;
-				if (k == nptrs && nptrs < MAXP) { ptrs[nptrs] = e; idx_of[nptrs] = idx; nptrs++; }
-				pid = k + 1;
-				for (int j = 0; j < nptrs; j++) {
-					if (j == k) continue;
-					long d = labs((long)(ptrs[j] - (char *)e));
-					if (dist == 0 || d < dist) dist = d;
-				}
-				unsigned char *b = e; val = b[0];
-				for (size_t i = 1; i < esize; i++) if (b[i] != b[0]) val = -1;
+		} else if (op[0] == 'T' && (op[1] == '1' || op[1] == '2') && !op[2]) {
+			int t = op[1] - '0';
+			if (ntprog[t] < MAXTOPS) {
+				struct vt_line *d = &tprog[t][ntprog[t]++];
+				*d = L;      /* the tokens point into the line buffer: re-base them onto the copy */
+				for (int i = 0; i < L.n; i++) d->tok[i] = d->raw + (L.tok[i] - L.raw);
 			}
-			vt_ev(op); vt_i(idx); vt_res(); vt_i(rc); vt_i(pid); vt_i(dist); vt_i(val); vt_end();
-		} else if (!strcmp(op, "Write")) {
-			long idx = vt_argi(&L, 1), v = vt_argi(&L, 2);
-			int k;
-			for (k = 0; k < nptrs; k++) if (idx_of[k] == idx) break;
-			if (k == nptrs) continue;
-			memset(ptrs[k], (int)v, esize);
-			vt_ev(op); vt_i(idx); vt_i(v); vt_res(); vt_end();
-		} else if (!strcmp(op, "Grow")) {
-			long n = vt_argi(&L, 1);
-			int rc = qb_array_grow(arr, (size_t)n);
-			vt_ev(op); vt_i(n); vt_res(); vt_i(rc); vt_end();
-		} else { fprintf(stderr, "h_array: unknown op %s\n", op); return 2; }
+		} else if (!strcmp(op, "S")) {
+			for (int i = 1; i < L.n && ntsched < (int)sizeof(tsched); i++) tsched[ntsched++] = L.tok[i][0];
+		} else if (!strcmp(op, "Seed")) {
+			trng = vt_argi(&L, 1) * 2654435761UL + 12345;
+		} else if (!strcmp(op, "Go")) {
+			trun();
+		} else {
+			do_op(&L, 0);
+		}
 	}
 	vt_close();
 	return 0;
